@@ -159,8 +159,12 @@ def _grid():
     # truncated normal: none / one-sided / two-sided / far tails / narrow / wide
     for lo, hi in ((-INF, INF), (-1.0, INF), (-INF, 0.5), (-1.0, 2.0), (-2, 2), (0.0, INF), (-INF, 0.0),
                    (3.0, INF), (4.0, INF), (-INF, -4.0), (3.0, 3.5), (-3.6, -3.0), (4.5, INF), (-0.01, 0.01),
-                   (-8.0, 8.0), (-12.0, 0.3), (1.1503, 1.8627), (0.0, 1e-3)):
+                   (-8.0, 8.0), (-12.0, 0.3), (1.1503, 1.8627), (0.0, 1e-3),
+                   # windows so far in the tail that they may be refused; where one is accepted it is a distribution
+                   # like any other
+                   (5.0, INF), (5.5, 7.0), (-7.0, -5.5), (5.5, INF), (-INF, -5.2), (6.0, 6.5)):
         add("DistNormalTrunc", mu=0.0, sigma=1.0, lo=lo, hi=hi)
+    add("DistNormalTrunc", mu=10.0, sigma=2.0, lo=21.2, hi=25.0)
     for mu, sg, lo, hi in ((10.0, 2.0, 9.0, 15.0), (-5.0, 0.05, -5.1, -4.99), (2.0, 0.2, 2.5, INF),
                            (100.0, 50.0, 0.0, INF), (1.0, 1.0, 0.0, INF), (-1.0, 3.0, -INF, 0.0),
                            # bounds that are large in magnitude compared with sigma (a tolerance relative to the
@@ -434,6 +438,16 @@ def _call(fn, x):
         return None, e
 
 
+def _window_mass(params):
+    mu, sg, lo, hi = (float(params[k]) for k in ("mu", "sigma", "lo", "hi"))
+    a, b = (lo - mu) / sg, (hi - mu) / sg
+    if a >= 0:                       # upper tail: difference of survival functions
+        return 0.5 * (math.erfc(a / math.sqrt(2.0)) - math.erfc(b / math.sqrt(2.0)))
+    if b <= 0:
+        return 0.5 * (math.erfc(-b / math.sqrt(2.0)) - math.erfc(-a / math.sqrt(2.0)))
+    return 1.0 - 0.5 * math.erfc(-a / math.sqrt(2.0)) - 0.5 * math.erfc(b / math.sqrt(2.0))
+
+
 class _PdfFail(Exception):
     pass
 
@@ -444,6 +458,10 @@ def _check_continuous(out, case, cls, params, n):
     out.label("branch:%s:%s" % (cls, ref.branch))
     stream = _counting_stream(case["seed"])
     dist, err = _call(lambda _: _build(cls, params, stream), None)
+    if err is not None and cls == "DistNormalTrunc" and isinstance(err, ValueError) and _window_mass(params) < 2e-6:
+        # the class documents that it refuses windows with a very low probability (its limit is 1E-6)
+        out.label("refused:low-probability-window")
+        return set()
     if err is not None:
         out.fail("ctor-raises:%s:%s" % (cls, type(err).__name__), {"params": case["p"], "error": str(err)[:200]})
         return set()
